@@ -119,13 +119,21 @@ def bounded_parse(check, tier):
     s.done()
 
 
-def diff_history(top0, last0, script):
+def diff_history(top0, last0, script, height=None):
     """script: list of (reported rows per query..., nested flags).  Runs get_cursor_vertical_diff on a real
     CursorAwareWindow whose position query is scripted; -> '' or description."""
     from curtsies.window import CursorAwareWindow
     w = CursorAwareWindow(out_stream=_Out(), in_stream=_In(""))
     w.top_usable_row = top0
     w._last_cursor_row = last0
+    if height is not None:
+        # the terminal was made `height` rows high since the last render (the remembered cursor row may lie below its last row now;
+        # the reports below are what such a terminal answers): movement is still "reported row - row of the last render"
+        from props.C07 import _blessed_sized
+        _blessed_sized(w.t)             # the blessed terminal reports this size (t.height / t.width and get_term_hw alike)
+        w.t._hw = (height, 80)
+        w._last_rendered_height, w._last_rendered_width = 24, 80
+    prev = [last0]          # the row the cursor was last seen on, tracked by the harness (not read back from the window)
     for rows in script:
         it = iter(rows)
         moved = [0]
@@ -133,8 +141,9 @@ def diff_history(top0, last0, script):
 
         def fake(w=w, it=it, moved=moved, nested_results=nested_results):
             row, nested = next(it)
-            if w._last_cursor_row is not None:
-                moved[0] += row - w._last_cursor_row
+            if prev[0] is not None:
+                moved[0] += row - prev[0]
+            prev[0] = row
             for _ in range(int(nested)):        # that many signals arrive while this one report is being read
                 nested_results.append(w.get_cursor_vertical_diff())
             return (row, 0)
@@ -175,6 +184,12 @@ def bounded_diff(check, tier):
                             d = diff_history(top0, last0, script)
                             if d:
                                 s.fail("C18.get_cursor_vertical_diff.conserve", case, d)
+                            if nested in (False, True) and max(r1, r1b or 0, r2) <= 2:
+                                # the same history on a terminal that has shrunk to 3 rows since the last render
+                                s.case((top0, last0, r1, nested, r1b, r2, "h3"))
+                                d = diff_history(top0, last0, script, height=3)
+                                if d:
+                                    s.fail("C18.get_cursor_vertical_diff.conserve", dict(case, height=3), "terminal shrunk to 3 rows: " + d)
     s.done()
 
 
